@@ -262,7 +262,7 @@ func (h *vgHarness) connList() []vgConn {
 // settle waits until every open pool connection has reached the state its endpoint allows (READY
 // when the endpoint is up, not READY when it is down) and the routes did not change for a while.
 func (h *vgHarness) settle() bool {
-	deadline := time.Now().Add(5 * time.Second)
+	deadline := time.Now().Add(3 * time.Second)
 	stableSince := time.Time{}
 	last := ""
 	for time.Now().Before(deadline) {
@@ -322,7 +322,7 @@ func vgGuard(f func() string) (res, msg string) {
 
 func (h *vgHarness) goroutinesAboveBaseline() int {
 	n := 0
-	for k := 0; k < 200; k++ {
+	for k := 0; k < 60; k++ {
 		n = runtime.NumGoroutine() - h.baseline
 		if n <= 0 {
 			return n
@@ -433,8 +433,8 @@ func vgRunScript(sc vgScript, emit func(vgEvent)) {
 		ev := h.exec(i+1, st)
 		ev.Sid = sc.Id
 		emit(ev)
-		if ev.Res == "HANG" {
-			break
+		if ev.Res == "HANG" || !ev.Settled {
+			break // an unsettled system makes the rest of the script meaningless (and slow)
 		}
 	}
 	// release everything
